@@ -185,17 +185,31 @@ def r3(ctx):
                 why = "Cache::get is not called with the command's key"
                 break
         rep.check(ok, "MemcStore::%s:first-access" % m, "first store access is Cache::get(key)", "MemcStore::%s: %s — expired items are not treated as absent" % (m, why), b.loc())
-    # (d) policy layer forwards get to the inner Cache::get
-    b = f.one(rp("get"))
+    # (d) the policy layer's get performs the lazy expiry of the inner store: it forwards to the inner Cache::get, or (trait
+    # default) looks the key up and returns the record only after the inner check_if_expired said "not expired"
+    b, dyn = impl_or_default(f, RP, "get")
     rep.analysed(b)
-    I = Interp(f)
+    I = Interp(f, self_impl=dyn)
     paths = I.run(b, [P("self"), P("key")])
     ok = bool(paths)
     for p in paths:
-        dyn = [e for e in p.events if e.kind == "call" and e.name.startswith(CACHE + "::")]
-        if len(dyn) != 1 or dyn[0].name != CACHE + "::get" or tform(dyn[0].args[1]) != P("key") or tform(p.ret) != dyn[0].result:
+        inner = [e for e in p.events if e.kind == "call" and (e.name.startswith(CACHE + "::") or e.name.startswith(IMPLD + "::")) and ("deref", F(P("self"), "store")) in [tform(e.args[0])] + list(atoms(e.args[0]))]
+        names = [e.name.split("::")[-1] for e in inner]
+        if names == ["get"]:
+            if tform(inner[0].args[1]) != P("key") or tform(p.ret) != inner[0].result:
+                ok = False
+            continue
+        var, pl = variant_of(p.ret)
+        if var != "Err":  # Ok(record), or a result passed through unexamined: may carry a record
+            chk = [e for e in inner if e.name.endswith("::check_if_expired")]
+            looked = [e for e in inner if e.name.endswith("::get_by_key") and tform(e.args[1]) == P("key")]
+            judged = bool(chk) and bool(looked) and tform(chk[-1].args[1]) == P("key") and looked[0].result in atoms(chk[-1].args[2]) and looked[0].result in atoms(p.ret)
+            not_expired = judged and bool_fact(p, chk[-1].result) is False
+            if not not_expired:
+                ok = False
+        elif any(n not in ("get_by_key", "check_if_expired", "get") for n in names):
             ok = False
-    rep.check(ok, "RandomPolicy::get", "policy get = inner Cache::get(key)", "RandomPolicy::get does not forward to the inner Cache::get (lazy expiry bypassed)", b.loc())
+    rep.check(ok, "RandomPolicy::get", "policy get = inner Cache::get(key) / lookup + inner expiry check", "RandomPolicy::get returns a record without the inner store's expiry check (it neither forwards to the inner Cache::get nor asks check_if_expired about the record it returns): expired items stay visible", b.loc())
     return rep
 
 
